@@ -59,6 +59,32 @@ func mkDict(shape int, finite bool) *value.HashMap {
 		kv("甲", value.NewArray([]r.Element{l(), l()}))})
 }
 
+// mkShared: dictionaries in which one list / dictionary object occurs at two
+// places (as after 写入 of one variable under two keys).
+func mkShared(shape int, finite bool) *value.HashMap {
+	l := func() r.Element { return leaf("v", finite) }
+	switch shape {
+	case 0:
+		shared := value.NewArray([]r.Element{l(), l()})
+		return value.NewHashMap([]value.KVPair{kv("甲", shared), kv("乙", shared)})
+	case 1:
+		shared := value.NewHashMap([]value.KVPair{kv("丙", l())})
+		return value.NewHashMap([]value.KVPair{kv("甲", value.NewArray([]r.Element{shared, shared}))})
+	}
+	shared := value.NewArray([]r.Element{l()})
+	return value.NewHashMap([]value.KVPair{kv("甲", value.NewHashMap([]value.KVPair{kv("乙", shared)})), kv("丙", shared)})
+}
+
+// H_RoundTripShared: the round trip of dictionaries with a shared sub-container.
+func H_RoundTripShared() {
+	d := mkShared(zv.Choose(3), true)
+	res, err, p := run(prog+"输出 E 为 D", r.ElementMap{"D": d})
+	zv.Assert(p == nil, "round trip (shared): no panic")
+	zv.Assert(err == nil, "round trip (shared): generating and parsing succeed")
+	b, ok := res.(*value.Bool)
+	zv.Assert(ok && b.GetValue(), "解析JSON(生成JSON(d)) 为 d also when one list / dictionary occurs twice inside d")
+}
+
 const prog = "导入《@JSON》\n输入D\n令T = （生成JSON：D）\n令E = （解析JSON：T）\n"
 
 // H_RoundTrip: 解析JSON(生成JSON(d)) 为 d for symbolic JSON-representable
